@@ -85,7 +85,7 @@ Theorem genesis_two_stage_per_module :
   /\ (forall p cur, snd (update_ht 2 p cur) = snd (init_genesis validate_ht validate_ht (fun _ => true) p cur))
   /\ (forall p cur, snd (update_sv 2 p cur) = snd (init_genesis validate_sv validate_sv (fun _ => true) p cur))
   /\ (forall p cur, snd (update_tk 2 p cur)
-                    = snd (init_genesis validate_tk validate_tk (fun p => c_denom (tk_fee p) =? 1) p cur)).
+                    = snd (init_genesis validate_tk validate_tk (fun p => tk_registered (c_denom (tk_fee p))) p cur)).
 Proof.
   repeat split; intros p cur;
     [apply (update_genesis_is_two_stage validate_cs validate_cs)
